@@ -44,7 +44,7 @@ def retry_table(src, fname):
     for am in re.finditer(arm, rest):
         val = am.group(3) == "true"
         if am.group(1) == "_": other = val
-        elif am.group(2) == "ServerError": server = val
+        elif am.group(2) == "ServerError": server = val if server is None else (server or val)  # several arms: any that retries counts
         elif val: other = True  # an explicit non-transport variant is retried
     left = re.sub(arm, "", rest).strip()
     if left:
@@ -255,6 +255,39 @@ def results_keyed_by_node(src, fname):
     return bool(m)
 
 
+def no_extra_timers(src, fname):
+    """The only waits in the code the property depends on are the ones the model has: each retry loop
+    sleeps once, for the configured retry delay, between attempts; the per-attempt timeout is the
+    argument of the client call (see `node_timeout`); `health_check` uses its one constant. Any other
+    timer, sleep, timeout wrapper, deadline comparison, select or interval inside the four loops,
+    `ensure_connected`, `broadcast_json` or `health_check` is reported as false (pessimistic: a reply that
+    takes longer than such a timer would be treated as something else than that reply)."""
+    timer_words = r"\b(sleep|timeout|sleep_until|interval|select!|recv_timeout|wait_timeout|park_timeout|Instant::now|elapsed|deadline|Duration::from_\w+|checked_sub|saturating_sub)\b"
+    def waits(fn):
+        return re.findall(timer_words, " ".join(fn_body(src, fn).split()))
+    ok = True
+    for fn in ("call_json_with_retry", "call_message_with_retry"):
+        flat = " ".join(fn_body(src, fn).split())
+        w = waits(fn)
+        # allowed: `let started = Instant::now();`, two `elapsed: started.elapsed()`, one sleep of the policy's delay,
+        # `let timeout = <node>.config.timeout;` and the `_with_timeout(.., timeout)` calls (not matched by \btimeout\b alone? they are)
+        allowed_sleep = len(re.findall(r"(?:thread::sleep|tokio::time::sleep)\(self\.options\.retry_policy\.delay\)", flat))
+        if w.count("sleep") != 1 or allowed_sleep != 1: ok = False
+        if w.count("Instant::now") != 1 or w.count("elapsed") != 4 or len(re.findall(r"elapsed: started\.elapsed\(\)", flat)) != 2: ok = False
+        if any(x in w for x in ("sleep_until", "interval", "select!", "recv_timeout", "wait_timeout", "park_timeout", "deadline", "checked_sub", "saturating_sub")): ok = False
+        if re.search(r"Duration::from_\w+", flat): ok = False
+        # `timeout` occurs only as the local holding the node's timeout and as the last argument of the client calls
+        stripped = re.sub(r"let timeout = \w+\.config\.timeout;", "", flat)
+        stripped = re.sub(r"call_(?:json|message)_with_timeout\(([^;]*?), timeout\)", "", stripped)
+        if re.search(r"\btimeout\b", stripped): ok = False
+    for fn in ("ensure_connected", "broadcast_json", "invalidate_client"):
+        if waits(fn): ok = False
+    hw = waits("health_check")
+    hflat = " ".join(fn_body(src, "health_check").split())
+    if sorted(hw) != sorted(["Instant::now", "elapsed", "elapsed"]) or "DEFAULT_HEALTH_TIMEOUT" not in hflat: ok = False
+    return ok
+
+
 def extract():
     facts = {}
     facts["deadKinds"] = dead_kinds("src/client.rs")
@@ -276,6 +309,7 @@ def extract():
         facts[nm("filter")] = filter_form(src, path)
         facts[nm("fanOutOverTargets")] = fan_out(src, path)
         facts[nm("invalidateUnconditional")] = invalidate_unconditional(src, path)
+        facts[nm("noExtraTimers")] = no_extra_timers(src, path)
         facts[nm("ensureConnectedCaches")] = ensure_connected_form(src, path)
         facts[nm("resultsKeyedByNode")] = results_keyed_by_node(src, path)
         for gk, gv in guards(src, test_mod_cut(strip(read("src/fleet.rs"))), path).items():
@@ -315,6 +349,8 @@ def render(f):
          f"def asyncFanOutOverTargets : Bool := {b(f['asyncFanOutOverTargets'])}",
          f"def invalidateUnconditional : Bool := {b(f['invalidateUnconditional'])}",
          f"def asyncInvalidateUnconditional : Bool := {b(f['asyncInvalidateUnconditional'])}",
+         f"def noExtraTimers : Bool := {b(f['noExtraTimers'])}",
+         f"def asyncNoExtraTimers : Bool := {b(f['asyncNoExtraTimers'])}",
          f"def ensureConnectedCaches : Bool := {b(f['ensureConnectedCaches'])}",
          f"def asyncEnsureConnectedCaches : Bool := {b(f['asyncEnsureConnectedCaches'])}",
          f"def resultsKeyedByNode : Bool := {b(f['resultsKeyedByNode'])}",
